@@ -22,7 +22,7 @@ def shape_of(spec):
     cancel = plan.get('cancel')
     c = (cancel.get('at'), cancel.get('phase'), cancel.get('how')) if cancel else None
     return json.dumps([ts, sorted((spec.get('config') or {}).items()), sorted((spec.get('client') or {}).items()),
-                       faults, c, spec.get('mode'), spec.get('min_part'), spec.get('body_read_sizes'), spec.get('get_read_caps')],
+                       faults, c, spec.get('mode'), spec.get('front_end'), spec.get('min_part'), spec.get('body_read_sizes'), spec.get('get_read_caps')],
                       default=repr)
 
 
@@ -43,7 +43,13 @@ def run_with(spec, evaluate, liveness=False):
 
     ``evaluate(obs) -> (violations, stats, nontrivial: bool, summary)``
     """
-    obs = scenario.run(spec)
+    fe = spec.get('front_end', 'manager')
+    if fe == 'manager':
+        obs = scenario.run(spec)
+    else:
+        from . import frontends
+
+        obs = frontends.run_legacy(spec) if fe == 'legacy' else frontends.run_procpool(spec)
     try:
         if obs.hang is not None:
             if not hasattr(obs, 'events'):
